@@ -229,10 +229,11 @@ def scen_frame(rep):
                 i += 1
                 rep.paths += 1
                 ok = kind == "ok" and res is True
-                r = {"status": "discharged" if ok else "refuted", "backend": "structural-identity", "time_s": 0.0, "model": None}
+                r = {"status": "discharged" if ok else ("unknown" if kind == "unsupported" else "refuted"), "backend": "structural-identity", "time_s": 0.0, "model": None,
+                     "reason": str(res)[:200]}
                 nm = f"frame[{name} on {target}]@path{i}.parent-and-siblings-untouched"
                 rep.obligation(nm, r, "magpylib._src.obj_classes.class_BaseTransform/class_BaseGeo (frame)", "frame")
-                if not ok:
+                if not ok and kind != "unsupported":
                     fails.append((nm, {"status": "refuted", "hint": {}, "model_str": ""}, f"{kind}: {res!r}"))
     return fails
 
